@@ -21,20 +21,20 @@ pub static DEF: PropDef = PropDef {
         "thresholds range over 0 <= k <= n",
     ],
     shards: (32, 128),
-    budget_ms: (20_000, 60_000),
+    budget_ms: (60_000, 180_000),
 };
 
-type Pk = XOnlyPublicKey;
-type P = Policy<Pk>;
+pub type Pk = XOnlyPublicKey;
+pub type P = Policy<Pk>;
 
-struct Keys {
-    k: [Keypair; 2],
-    pk: [Pk; 2],
-    pre: Preimage32,
-    image: sha256::Hash,
+pub struct Keys {
+    pub k: [Keypair; 2],
+    pub pk: [Pk; 2],
+    pub pre: Preimage32,
+    pub image: sha256::Hash,
 }
 
-fn keys() -> Keys {
+pub fn keys() -> Keys {
     let secp = Secp256k1::new();
     let k1 = Keypair::from_seckey_slice(&secp, &[0x11; 32]).unwrap();
     let k2 = Keypair::from_seckey_slice(&secp, &[0x22; 32]).unwrap();
@@ -68,7 +68,7 @@ fn size(p: &P) -> usize {
 }
 
 /// all policies with exactly `s` nodes, memoised by size
-fn policies(s: usize, memo: &mut Vec<Vec<P>>, ks: &Keys) -> Vec<P> {
+pub fn policies(s: usize, memo: &mut Vec<Vec<P>>, ks: &Keys) -> Vec<P> {
     while memo.len() <= s {
         let n = memo.len();
         let mut v: Vec<P> = vec![];
@@ -121,11 +121,11 @@ fn policies(s: usize, memo: &mut Vec<Vec<P>>, ks: &Keys) -> Vec<P> {
     memo[s].clone()
 }
 
-struct Sat<'a, 'brand> {
-    ctx: types::Context<'brand>,
-    sigs: HashMap<Pk, SchnorrSig>,
-    pre: HashMap<sha256::Hash, Preimage32>,
-    env: &'a envs::Env,
+pub struct Sat<'a, 'brand> {
+    pub ctx: types::Context<'brand>,
+    pub sigs: HashMap<Pk, SchnorrSig>,
+    pub pre: HashMap<sha256::Hash, Preimage32>,
+    pub env: &'a envs::Env,
 }
 
 fn leaf_runs(p: &P, env: &envs::Env) -> bool {
@@ -181,7 +181,7 @@ fn truth(p: &P, avail: u8, ks: &Keys, env: &envs::Env, cache: &mut HashMap<Strin
     }
 }
 
-fn lock_envs() -> Vec<(String, envs::EnvSpec)> {
+pub fn lock_envs() -> Vec<(String, envs::EnvSpec)> {
     let mut v = vec![];
     for (lt, seq) in [(42u32, 0xffff_fffeu32), (41, 1), (43, 2), (0, 0), (42, u32::MAX), (500_000_042, 1), (42, (1 << 22) | 2), (42, 1 << 31)] {
         let mut e = envs::base_env();
